@@ -88,6 +88,7 @@ public:
   void set_error_flag(bool error_flag);
 
   int get_next_index();
+  int get_next_index_after_remap(int first_index) const;
   void add_type(TypeIndex index, const InterrogateType &type);
   void add_function(FunctionIndex index, InterrogateFunction *function);
   void add_wrapper(FunctionWrapperIndex index,
